@@ -1,7 +1,6 @@
 package checks
 
 import (
-	"encoding/json"
 	"fmt"
 
 	"github.com/quickfixgo/quickfix"
@@ -92,15 +91,10 @@ func c01Alphabet() []*sessmc.Event {
 	a = append(a, sessmc.EvIn("5", 0, false), sessmc.EvIn("3", 0, false, fixscan.Field{45, "1"}))
 	a = append(a, sessmc.EvLogon(0, 0, ""), sessmc.EvLogon(1, 0, ""), sessmc.EvLogon(0, 1, "Y"))
 	a = append(a, sessmc.EvTimeout(quickfix.VerifPeerTimeout), sessmc.EvTimeout(quickfix.VerifNeedHeartbeat))
-	a = append(a, sessmc.EvDisconnect(), sessmc.EvConnect())
+	a = append(a, sessmc.EvDisconnect(), sessmc.EvConnect(), sessmc.EvFlush())
 	return a
 }
 
-type c01Replay struct {
-	Cfg   sessmc.Config
-	Names []string
-	Rule  string
-}
 
 func c01Configs(quick bool) []sessmc.Config {
 	var out []sessmc.Config
@@ -118,53 +112,9 @@ func c01Configs(quick bool) []sessmc.Config {
 
 func init() {
 	register("C01", core.LevelMC, runC01)
-	core.RegisterReplay("C01/seq", func(data json.RawMessage) (bool, string, error) {
-		var r c01Replay
-		if err := json.Unmarshal(data, &r); err != nil {
-			return false, "", err
-		}
-		rule, what, _, err := sessmc.ReplayNames(r.Cfg, nil, c01Alphabet(), []sessmc.Monitor{&c01Mon{}}, r.Names)
-		return rule != "", rule + ": " + what, err
-	})
-}
-
-// runSessionSearch is shared by the Engine-A checks.
-type searchSpec struct {
-	cfg      sessmc.Config
-	alphabet []*sessmc.Event
-	prefix   []*sessmc.Event
-	mons     func() []sessmc.Monitor
-	depth    int
-	relative bool
-	extra    func(w *sessmc.World, e *sessmc.Event) bool
-	kind     string
-}
-
-func runSearch(c *core.Ctx, sp searchSpec) *sessmc.Explorer {
-	x := &sessmc.Explorer{Cfg: sp.cfg, Alphabet: sp.alphabet, Prefix: sp.prefix, Monitors: sp.mons, MaxDepth: sp.depth,
-		Relative: sp.relative, Stop: c.Expired, ExtraEnabled: sp.extra}
-	if err := x.Run(); err != nil {
-		c.EngineError(err.Error())
-		return x
+	variantDefs["C01"] = func(cfg sessmc.Config) searchSpec {
+		return searchSpec{cfg: cfg, alphabet: c01Alphabet(), mons: func() []sessmc.Monitor { return []sessmc.Monitor{&c01Mon{}} }, variant: "C01"}
 	}
-	c.AddStates(x.States)
-	c.AddTransitions(x.Transitions)
-	c.AddEval(x.Transitions)
-	c.DistinctN(x.States)
-	c.AddCounter("distinct_transition_observation_shapes", x.ObsLogs)
-	if x.Capped {
-		c.Cap(fmt.Sprintf("config %s: search stopped at depth %d (completed %d)", sp.cfg, sp.depth, x.DepthDone))
-	}
-	for _, v := range x.Violations {
-		c.Violation(v.Rule+" cfg="+v.Cfg.String(), fmt.Sprintf("%s | path=%v", v.What, v.Path), sp.kind,
-			c01Replay{Cfg: v.Cfg, Names: v.Path, Rule: v.Rule})
-	}
-	for _, p := range x.SamplePaths {
-		if c.NumSamples() < 8 {
-			c.Sample(map[string]any{"config": sp.cfg.String(), "path": p})
-		}
-	}
-	return x
 }
 
 func runC01(c *core.Ctx) {
@@ -182,13 +132,15 @@ func runC01(c *core.Ctx) {
 	minDepth := 99
 	for _, cfg := range c01Configs(c.Quick()) {
 		// absolute keys from a never-connected session
-		x := runSearch(c, searchSpec{cfg: cfg, alphabet: c01Alphabet(), mons: func() []sessmc.Monitor { return []sessmc.Monitor{&c01Mon{}} }, depth: depth, kind: "C01/seq"})
+		sp := variantDefs["C01"](cfg)
+		sp.depth = depth
+		x := runSearch(c, sp)
 		if x.DepthDone < minDepth {
 			minDepth = x.DepthDone
 		}
 		// relative keys, deeper
-		x2 := runSearch(c, searchSpec{cfg: cfg, alphabet: c01Alphabet(), mons: func() []sessmc.Monitor { return []sessmc.Monitor{&c01Mon{}} }, depth: relDepth, relative: true, kind: "C01/seq"})
-		_ = x2
+		sp.depth, sp.relative = relDepth, true
+		runSearch(c, sp)
 		if c.Expired() {
 			break
 		}
